@@ -558,6 +558,10 @@ def step_flags(name, mod_before, op, mod_after):
         def used_mins(m):
             return sum(1 for o in m.walk() if isinstance(o, affine.MinOp) and any(True for _ in o.results[0].uses))
         flags["existing_in_loop"] = existing_dim_in_loop(op)
+        # the pattern's own contract: every user of the matched dim is an alloc / subview. A step on a dim that also feeds another op
+        # is outside it, whatever the size is: such a run is never attributed to a listed finding
+        flags["mixed_users"] = isinstance(op, memref.DimOp) and any(
+            not isinstance(u.operation, (memref.AllocOp, memref.SubviewOp)) for u in op.results[0].uses)
         flags["min_replaced"] = used_mins(mod_after) < used_mins(mod_before)
         flags["existing_moved"] = use_before_def(find_func(mod_after)) and not use_before_def(find_func(mod_before))
     return flags
@@ -727,7 +731,7 @@ def rank_of(ty):
 class GenReuse:
     """loop nests with allocations, memref.dim, subviews and affine.min for reuse-memref-allocs"""
 
-    def __init__(self, r, minfirst_nonconst=False, chain_bias=0.12, multi_bias=0.1, unreg_bias=0.08, idxc_bias=0.2, if_bias=0.0):
+    def __init__(self, r, minfirst_nonconst=False, chain_bias=0.12, multi_bias=0.1, unreg_bias=0.08, idxc_bias=0.2, if_bias=0.0, mixed_bias=0.4):
         self.r = r
         self.n = 0
         self.tags = 0
@@ -737,6 +741,7 @@ class GenReuse:
         self.unreg_bias = unreg_bias
         self.idxc_bias = idxc_bias
         self.if_bias = if_bias
+        self.mixed_bias = mixed_bias
 
     def fresh(self, p="v"):
         self.n += 1
@@ -875,7 +880,8 @@ class GenReuse:
         src = r.choice([v for v in vals if v[2] == "arg" and v[1] != IDX])
         el = "i8" if src[1] == M0 else "i32"
         sizes, shape = [], []
-        for _ in range(2):
+        min_slots = []
+        for slot in range(2):
             how = r.choice(["static", "const", "min", "min", "dim", "dim", "iv", "any"])
             if how == "static":
                 c = r.choice([2, 4, 8])
@@ -884,6 +890,7 @@ class GenReuse:
                 continue
             shape.append("?")
             if how == "min":
+                min_slots.append(slot)
                 v = self.fresh("mn")
                 a = self.pick_idx(vals, prefer=["iv", "arith"])
                 b = self.pick_idx(vals, prefer=["arg", "const"])
@@ -912,7 +919,8 @@ class GenReuse:
         if r.random() < 0.6:
             out.append(f'{ind}"test.op"({sv}) {{tag = "{self.tag()}"}} : ({ty}) -> ()')
         d = self.fresh("d")
-        ix_ = self.idxc(ind, vals, out, r.randrange(2))
+        # the queried dimension is mostly the partial-tile one (sized by the affine.min) when there is one
+        ix_ = self.idxc(ind, vals, out, r.choice(min_slots) if min_slots and r.random() < 0.7 else r.randrange(2))
         out.append(f'{ind}{d} = "memref.dim"({sv}, {ix_}) : ({ty}, index) -> index')
         vals.append((d, IDX, "dim"))
         other = self.pick_idx(vals, prefer=r.choice([["dim"], ["const"], ["min"], None]))
@@ -921,6 +929,16 @@ class GenReuse:
         vals.append((a, "memref<?x?xi8>", "alloc"))
         if r.random() < 0.6:
             out.append(f'{ind}"test.op"({a}) {{tag = "{self.tag()}"}} : (memref<?x?xi8>) -> ()')
+        if r.random() < self.mixed_bias:
+            # MIXED users: the dim sizes the alloc above AND feeds another op (a side-effecting op, or index arithmetic that one
+            # observes): MoveMemrefDims must leave such a dim alone (`used_by_neither_alloc_nor_subview`)
+            if r.random() < 0.6:
+                out.append(f'{ind}"test.op"({d}) {{tag = "{self.tag()}"}} : (index) -> ()')
+            else:
+                v = self.fresh()
+                out.append(f"{ind}{v} = arith.addi {d}, {self.pick_idx(vals, prefer=['iv', 'const'])} : index")
+                vals.append((v, IDX, "arith"))
+                out.append(f'{ind}"test.op"({v}) {{tag = "{self.tag()}"}} : (index) -> ()')
 
     def multidim(self, ind, vals, out):
         """several `memref.dim` ops with different indices (in any order, repeats allowed) on the SAME subview whose static
@@ -1468,8 +1486,8 @@ class C17(Prop):
                 return "D18"
             if flags.get("negbounds"):
                 return "DC17a"
-            if flags.get("min_replaced"):
-                return "D24"
+            if flags.get("min_replaced") and not flags.get("mixed_users"):
+                return "D24"   # D24 = the pattern, applied within its own guard, replaces the affine.min everywhere
             return None
         try:
             m2 = snaxrun.parse(impl_out["out"])
